@@ -196,7 +196,7 @@ func c14Subs() []fw.Sub {
 			if tier == "thorough" {
 				return 800000
 			}
-			return 40000
+			return 150000
 		},
 		Gen: c14Gen, Check: c14Check,
 	}}
